@@ -378,8 +378,8 @@ func runC11R3(c *Ctx) {
 			continue
 		}
 		key := rn + "." + fn.Name()
-		if delegateSkip[key] {
-			continue
+		if delegateSkip[key] || !token.IsExported(fn.Name()) {
+			continue // unexported methods are internal helpers, not part of the walletdb interfaces
 		}
 		want := fn.Name()
 		if a, ok := delegateAlias[key]; ok {
@@ -415,6 +415,27 @@ func runC11R3(c *Ctx) {
 			}
 			if _, f, _, ok := fieldOf(o); ok && f == "boltTx" {
 				okRecv = true
+			}
+			// own receiver converted by a same-package helper (func (c *cursor) boltCursor() *bbolt.Cursor { return (*bbolt.Cursor)(c) })
+			if hc, ok := o.(*ssa.Call); ok {
+				h := hc.Call.StaticCallee()
+				if h != nil && h.Pkg == fn.Pkg && len(hc.Call.Args) == 1 && len(h.Params) == 1 {
+					if prm, ok := stripConv(hc.Call.Args[0]).(*ssa.Parameter); ok && paramIndex(fn, prm) == 0 {
+						pure := len(h.Blocks) == 1
+						for _, b := range h.Blocks {
+							for _, ins := range b.Instrs {
+								if r, ok := ins.(*ssa.Return); ok {
+									if len(r.Results) != 1 || stripConv(r.Results[0]) != ssa.Value(h.Params[0]) {
+										pure = false
+									}
+								}
+							}
+						}
+						if pure {
+							okRecv = true
+						}
+					}
+				}
 			}
 		}
 		// arguments passed through in order
